@@ -34,3 +34,26 @@ Theorem C27_merge_conflict_iff :
   forall bc lc rc, snd (merge_card bc lc rc) = true <-> (lc <> bc /\ rc <> bc).
 Proof. exact merge_card_conflict_iff. Qed.
 Print Assumptions C27_merge_conflict_iff.
+
+(* ---- round 2 ---- *)
+Theorem C27_merge_oracle_on_model :
+  forall b l r,
+  (forall x y, In x (input_rows b l r) -> In y (input_rows b l r) -> enc x = enc y -> x = y) ->
+  pos_m b -> pos_m l -> pos_m r ->
+  merge_ok b l r (model_merge b l r) = true.
+Proof. exact merge_oracle_on_model. Qed.
+Print Assumptions C27_merge_oracle_on_model.
+
+Theorem C27_oracle_on_model_partial :
+  forall i,
+  (forall x y, In x (input_rows (i_b i) (i_l i) (i_r i)) -> In y (input_rows (i_b i) (i_l i) (i_r i)) -> enc x = enc y -> x = y) ->
+  pos_m (i_b i) -> pos_m (i_l i) -> pos_m (i_r i) ->
+  merge_ok (i_b i) (i_l i) (i_r i) (o_lr (model_obs i)) = true
+  /\ merge_ok (i_b i) (i_r i) (i_l i) (o_rl (model_obs i)) = true.
+Proof. exact oracle_on_model_partial. Qed.
+Print Assumptions C27_oracle_on_model_partial.
+
+Theorem C27_kmerge_conflict_entry :
+  forall b l r k e, In (k, e) (km_conf (kmerge b l r)) -> e = (sget k b, sget k l, sget k r).
+Proof. exact kmerge_conflict_entry. Qed.
+Print Assumptions C27_kmerge_conflict_entry.
